@@ -168,7 +168,7 @@ impl<'a> Exec<'a> {
     pub fn pred_value(&self, p: Pred) -> bool {
         match p {
             Pred::Always => true,
-            Pred::Never => false,
+            Pred::Never | Pred::SlowNever => false,
             Pred::Records3 => self.model.active.map_or(false, |a| self.model.count_of(a) >= 3),
             Pred::NoActive => self.model.active.is_none(),
         }
